@@ -129,6 +129,11 @@ theorem SL.fuel_linear {ty : String → Bool} : ∀ l : SL, WFSL ty l → l.fuel
     | consD _ _ hwd _ hwr =>
       have := Dcl.fuel_linear hwd; have := Dcl.ntoks_pos dc; have := SL.fuel_linear r hwr
       simp only [SL.fuel, SL.ntoks]; omega
+  | .consP p r, hw => by
+    cases hw with
+    | consP _ _ hwr =>
+      have := SL.fuel_linear r hwr
+      cases p <;> simp only [SL.fuel, SL.ntoks, pragmaNtoks] <;> omega
 end
 
 theorem Param.fuel_linear {p : Param} (hwf : WFParam p) : p.fuel ≤ 14 * p.ntoks + 1 := by
